@@ -40,8 +40,10 @@ FirstHoleTy(e) ==
          IN Go(1)
 
 Unset == << "?" >>
-Targets == IF Tier = "quick" THEN { << "x" >>, << "x", "y" >>, << "ALL" >> }
-           ELSE { << "x" >>, << "y" >>, << "x", "y" >>, << "ALL" >>, << "p" >> }
+\* << >> is the empty collection of target names (nothing is an unknown: the whole expression
+\* is the constant term) - not to be confused with "ALL" (target_names=None)
+Targets == IF Tier = "quick" THEN { << "x" >>, << "x", "y" >>, << "ALL" >>, << >> }
+           ELSE { << "x" >>, << "y" >>, << "x", "y" >>, << "ALL" >>, << "p" >>, << >> }
 NoSys == << >>
 Coef == {-1, 0, 1, 2}
 EqSet == IF Tier = "quick" THEN [a1 : Coef, a2 : {-1, 0, 1}, r1 : {0}, l : {0}, b : {0, 1}, c : {0, -3}]
